@@ -251,7 +251,16 @@ func (p *sparser) quant() SExpr {
 	var pats []SExpr
 	for p.isOp("{") {
 		p.i++
-		pats = append(pats, p.expr())
+		first := p.expr()
+		if p.isOp(",") { // multi-pattern {a, b}
+			terms := []SExpr{first}
+			for p.isOp(",") {
+				p.i++
+				terms = append(terms, p.expr())
+			}
+			first = SCall{"$multi", terms}
+		}
+		pats = append(pats, first)
 		p.expect("}")
 	}
 	body := p.expr()
